@@ -4,7 +4,7 @@ from vlib.runner import Case
 
 PID = "C04"
 PROPS = ["Props/C04.v"]
-GEN = []
+GEN = ['LexConst.v', 'ParseConst.v']
 MODEL_IS_SPEC = False
 RULE = ("strings: single/double-edit neighbours (delete/insert/replace/duplicate/swap of a character or token from the query alphabet) of valid rendered queries, "
         "random sequences over the query alphabet, and a hand-written list of classic near-misses; membership in the RFC 9535 ABNF decided by the extracted Coq recognizer "
